@@ -746,11 +746,22 @@ def _loader_stateless(ctx, rule):
     from . import c14
     return c14.r8_loader_stateless(ctx, rule)
 
+def _shared_rule(mod, name, **kw):
+    def run(ctx, rule):
+        import importlib
+        return getattr(importlib.import_module('sa.props.' + mod), name)(ctx, rule, **kw)
+    return run
+
+
 def rules(tier):
     return [('C01.R1', r1_heap_order), ('C01.R2', r2_heap_ownership), ('C01.R3', r3_prob_fold),
             ('C01.R4', r4_prob_pt_coupling), ('C01.R5', r5_successor), ('C01.R6', r6_loader_order),
             ('C01.R7', r7_determinism), ('C01.R8', r8_uniform_scale),
-            ('C01.R9', r9_exact_float_discipline), ('C01.R10', _mask_insertion), ('C01.R11', r11_sections_not_aliased), ('C01.R12', _options_forwarded), ('C01.R13', _loader_stateless)]
+            ('C01.R9', r9_exact_float_discipline), ('C01.R10', _mask_insertion), ('C01.R11', r11_sections_not_aliased), ('C01.R12', _options_forwarded), ('C01.R13', _loader_stateless),
+            # C01-cb: max_probability taken from base_prob instead of prob - the resumed run starts above where it stopped
+            ('C01.R14', _shared_rule('c08', 'r4_saved_position')),
+            # C01-ca: skip_case restored from the skip_brute key - the resumed run continues in another grammar
+            ('C01.R15', _shared_rule('c08', 'r11_restore_is_verbatim'))]
 
 
 META = {
